@@ -319,6 +319,12 @@ var subC14File = &fw.Sub{Name: "c14.corpus", New: func() fw.Case { return &c14Fi
 				if e1 == nil && e2 == nil && (fmt.Sprint(dp1.Lfs) != fmt.Sprint(dp2.Lfs) || fmt.Sprint(dp1.Positions) != fmt.Sprint(dp2.Positions) || !bytes.Equal(dp1.Code, dp2.Code)) {
 					return fw.Failf("re-dump of the re-used Prog has the file's code, positions and line table", "line table %v vs %v", trimInts(dp1.Lfs), trimInts(dp2.Lfs))
 				}
+				// ... and the file's typed constants, one by one (kind and value)
+				if e1 == nil && e2 == nil {
+					if c1, c2 := fmt.Sprintf("%#v", dp1.Consts), fmt.Sprintf("%#v", dp2.Consts); c1 != c2 {
+						return fw.Failf("re-dump has the file's constants: "+fw.Trunc(c1, 300), "%s", fw.Trunc(c2, 300))
+					}
+				}
 			}
 			fw.TallyOutcome("corpus-file-ok")
 			fw.TallyNontrivial()
@@ -340,6 +346,10 @@ func handAssembled() map[string]*bc.Prog {
 	mk("const-kinds", []any{int64(-42), true, false, nil, 2.5, "s", int64(-9223372036854775808), int64(9223372036854775807)},
 		bc.CONST, 0, bc.PRINT, bc.CONST, 1, bc.PRINT, bc.CONST, 2, bc.PRINT, bc.CONST, 3, bc.PRINT, bc.CONST, 4, bc.PRINT,
 		bc.CONST, 5, bc.PRINT, bc.CONST, 6, bc.PRINT, bc.CONST, 7, bc.PRINT, bc.RET)
+	// `false` after constants of every other kind (an encoder that leaves a byte of the previous item behind)
+	mk("false-after-each-kind", []any{"str", false, 2.5, false, int64(300), false, true, false, nil, false, int64(-1), false},
+		bc.CONST, 1, bc.PRINT, bc.CONST, 3, bc.PRINT, bc.CONST, 5, bc.PRINT, bc.CONST, 7, bc.PRINT, bc.CONST, 9, bc.PRINT, bc.CONST, 11, bc.PRINT,
+		bc.CONST, 0, bc.PRINT, bc.CONST, 6, bc.PRINT, bc.RET)
 	// minor version 0
 	p0 := &bc.Prog{Major: 1, Minor: 0, Name: "minor0", Code: []byte{bc.ONE, bc.PRINT, bc.RET}, Positions: []int{1, 2, 3}}
 	m["minor0"] = p0
